@@ -885,6 +885,133 @@ def mon_C18(case):
     return bad[:1]
 
 
+def mon_C19(case):
+    """redis configs: independent re-statement of the property on the harness's own input
+    description and the implementation's answer (never looks at the model)"""
+    ws = case["in"].split()
+    o = case["out"] or ""
+    if o.startswith("rdout panic") or not o.startswith("rdout"):
+        return [(0, f"panicked / gave no result on {case['in'][:120]}: {o[:60]}")]
+    for x in case["extra"]:
+        if "DIFFER" in x:
+            return [(0, "round trip changed a value: " + x[:300])]
+        if x.startswith("rdx get-succeeded"):
+            return [(0, "a connection was established although every named server hangs up")]
+    fam = ws[1]
+    if fam == "cfg":
+        i = kvs(case["in"])
+        def lst(v):
+            return None if v == "-" else [x for x in v[1:-1].split(",") if x]
+        u, c = lst(i["u"]), lst(i["c"])
+        if u is not None and c is not None:
+            want = "rdout err both"
+        elif u is not None:
+            want = "rdout err redis" if ("bad" in u or i["au"] == "0") else ("ok", sorted(set(u)))
+        elif c is not None:
+            want = "rdout err redis" if i["ac"] == "0" else ("ok", sorted(set(c)))
+        else:
+            want = ("ok", ["D"])
+        if isinstance(want, str):
+            if o != want:
+                return [(0, f"{ws[2]} config u={i['u']} c={i['c']}: expected {want[6:]}, got {o[6:60]}")]
+            return []
+        if not o.startswith("rdout ok"):
+            return [(0, f"{ws[2]} config u={i['u']} c={i['c']} rejected: {o[:60]}")]
+        r = kvs(o)
+        if r["servers"] != "unobserved" and r["servers"] != "[" + ",".join(want[1]) + "]":
+            return [(0, f"{ws[2]} config u={i['u']} c={i['c']}: the pool contacted {r['servers']}, named are {want[1]}")]
+        wmax = i["pool"] if i["pool"] != "-" else i["dflt"]
+        if r["max"] != wmax:
+            return [(0, f"pool section {i['pool']} (default {i['dflt']}) but max_size {r['max']}")]
+        return []
+    if fam == "conv":
+        # field-wise: `there` carries the same fields, `back` equals the original
+        there, back = o.split(" there=", 1)[1].split(" back=")
+        orig = " ".join(ws[3:])
+        if back != orig:
+            return [(0, f"{ws[2]}: round trip {orig} -> {there} -> {back}")]
+        def strip_tls(a):
+            # the redis side prints one more component (tls_params) on tls addresses
+            p = a.split(" ")
+            if p[0].startswith("tls:") and p[0].count(":") == 4:
+                p[0] = p[0].rsplit(":", 1)[0]
+            return " ".join(p)
+        if strip_tls(there) != strip_tls(orig):
+            return [(0, f"{ws[2]}: converted value {there} differs from {orig}")]
+        return []
+    if fam == "serde":
+        if ws[2] == "pc":
+            orig = " ".join(ws[3:])
+            back = o.split(" back=", 1)[1]
+            if back != orig:
+                return [(0, f"PoolConfig {orig} came back as {back}")]
+        if ws[2] == "doc":
+            want = _c19_doc(ws[4:], ws[3] == "1")
+            back = o.split(" back=", 1)[1]
+            if back != want:
+                return [(0, f"document {' '.join(ws[4:])[:200]} ({'string' if ws[3] == '1' else 'typed'} source) should read as {want}, got {back}")]
+        return []
+    return []
+
+
+def _c19_doc(toks, stringly):
+    """the documented reading of a PoolConfig document: max_size required, timeouts default to
+    none (each of wait / create / recycle: absent or null = none, else both secs and nanos),
+    queue_mode defaults to Fifo; anything ill-typed is an error; unknown keys are ignored"""
+    pos = [0]
+    def tree():
+        t = toks[pos[0]]
+        pos[0] += 1
+        if t == "{":
+            d = {}
+            while toks[pos[0]] != "}":
+                k = toks[pos[0]]
+                pos[0] += 1
+                v = tree()
+                d.setdefault(k, v)
+            pos[0] += 1
+            return d
+        if t == "N":
+            return None
+        if t.startswith("n"):
+            return int(t[1:])
+        return "" if t == "se" else bytes.fromhex(t[1:]).decode("utf-8", "replace")
+    doc = tree()
+    class Bad(Exception):
+        pass
+    def num(v):
+        if stringly:
+            if isinstance(v, str) and v.isdigit():
+                return int(v)
+        elif isinstance(v, int) and not isinstance(v, bool):
+            return v
+        raise Bad()
+    def dur(v):
+        if v is None:
+            return "-"
+        if not isinstance(v, dict) or "secs" not in v or "nanos" not in v:
+            raise Bad()
+        return f"{num(v['secs'])}.{num(v['nanos'])}"
+    try:
+        if not isinstance(doc, dict) or "max_size" not in doc:
+            raise Bad()
+        m = num(doc["max_size"])
+        ts = ["-", "-", "-"]
+        if "timeouts" in doc:
+            t = doc["timeouts"]
+            if not isinstance(t, dict):
+                raise Bad()
+            ts = [dur(t[k]) if k in t else "-" for k in ("wait", "create", "recycle")]
+        q = "fifo"
+        if "queue_mode" in doc:
+            q = {"Fifo": "fifo", "Lifo": "lifo"}.get(doc["queue_mode"])
+            if q is None:
+                raise Bad()
+        return f"{m} {ts[0]} {ts[1]} {ts[2]} {q}"
+    except Bad:
+        return "error"
+
+
 def signature(prop, run, model_lines, diverged, k, msg, kind):
     """known-finding signature of a violation, or '' (see known_findings.txt).  A violation is
     attributed to a known finding only if the model of the pinned code reproduces the whole
@@ -1133,4 +1260,4 @@ def mon_C08(run):
     return bad[:1]
 
 
-MONITORS = {"C18": mon_C18, "C05": mon_C05, "C12": mon_C12, "C08": mon_C08, "C13": mon_C13, "C04": mon_C04, "C07": mon_C07, "C06": mon_C06, "C09": mon_C09, "C03": mon_C03, "C10": mon_C10, "C01": mon_C01, "C02": mon_C02, "C11": mon_C11}
+MONITORS = {"C18": mon_C18, "C19": mon_C19, "C05": mon_C05, "C12": mon_C12, "C08": mon_C08, "C13": mon_C13, "C04": mon_C04, "C07": mon_C07, "C06": mon_C06, "C09": mon_C09, "C03": mon_C03, "C10": mon_C10, "C01": mon_C01, "C02": mon_C02, "C11": mon_C11}
